@@ -106,3 +106,97 @@ def tiling_lemmas():
         ("slices are well formed: start(r) <= end(r)",
          z3.Implies(z3.And(pre, 0 <= r, r < P), slice_start(N, P, r) <= slice_end(N, P, r))),
     ]
+
+
+# ---------------------------------------------------------------------------------- chi2_fcn (C10)
+NLLP_v = z3.Function("NLL.val", z3.ArraySort(z3.IntSort(), z3.RealSort()), z3.RealSort())
+
+
+def chi2_fcn_contract(signs_none):
+    """chi2_fcn evaluates the likelihood at p with p_i = x_i (sign None), 10**x_i ('+'), -10**x_i ('-'); with signs None at x itself."""
+    from pyvc.values import VFloat, VRef, VMaybeNone, VNone, as_float, POW10, HObj, HSeq
+    from pyvc import models as M
+    from pyvc.engine import LoopSpec
+    PLUS = lambda eng: eng.label_of("+")
+    MINUS = lambda eng: eng.label_of("-")
+
+    def mk_lik(eng, st):
+        return st.alloc(HObj("Lik", {}))
+
+    def mk_signs(eng, st):
+        if signs_none:
+            return VNone()
+        return eng.fresh(T.list(T.opt(T.label)), "signs", st)
+
+    def target(eng, sgn, xv):
+        """transformed parameter (real) for sign sgn (VMaybeNone of label) and coordinate xv (real term)"""
+        return z3.If(sgn.isnone, xv, z3.If(sgn.val.t == PLUS(eng), POW10(xv), -POW10(xv)))
+
+    def setup(eng, st, args):
+        def negloglike(eng_, st_, recv, a, kw, node):
+            o = st_.heap[a[0].addr]
+            g0 = o.get
+            k = z3.Int("k!nll")
+            if isinstance(g0(k), VMaybeNone):
+                k1 = z3.Int(fresh_name("k!nn"))
+                s2 = st_.fork()
+                s2.pc = list(st_.pc) + [0 <= k1, k1 < o.len]
+                eng_.oblige(s2, "every parameter passed to the likelihood is a number (no None left)", z3.Not(g0(k1).isnone), "safety", node)
+                g = lambda q: g0(q).val
+            else:
+                g = g0
+            A = M.named_array(eng_, z3.Lambda([k], as_float(g(k)).val), "P")
+            st_.ghost["nll_arg"] = (A, o.len)
+            return VFloat(NLLP_v(A))
+        eng.methods["negloglike"] = negloglike
+
+    def requires(S, a):
+        out = []
+        if not signs_none:
+            out.append(("x has one coordinate per sign", S.len(a["x"]) == S.len(a["signs"])))
+        return out
+
+    def optval(v):
+        if isinstance(v, VNone):
+            return z3.BoolVal(True), z3.RealVal(0)
+        if isinstance(v, VMaybeNone):
+            return v.isnone, as_float(v.val).val
+        return z3.BoolVal(False), as_float(v).val
+
+    def inv(S, st):
+        i = S.i(S.var("__i"))
+        p, x, sg = S.seq(S.var("p")), S.seq(S.var("x")), S.seq(S.var("signs"))
+        k = z3.Int("k!inv")
+        return [("p has one slot per sign", p.len == sg.len),
+                ("entries below i are the transformed coordinates",
+                 z3.ForAll([k], z3.Implies(z3.And(0 <= k, k < i), z3.And(
+                     z3.Not(optval(p.get(k))[0]), optval(p.get(k))[1] == target(S.eng, sg.get(k), x.get(k).val)))))]
+
+    def ensures(S, a, res):
+        eng, st = S.eng, S.st
+        x = S.seq(a["x"])
+        A, n = st.ghost.get("nll_arg", (None, None))
+        if A is None:
+            raise Unsupported("likelihood.negloglike is not called")
+        k = z3.Int("k!ens")
+        if signs_none:
+            want = lambda q: x.get(q).val
+        else:
+            sg = S.seq(a["signs"])
+            want = lambda q: target(eng, sg.get(q), x.get(q).val)
+        return [("the likelihood is evaluated at the transformed parameters (x, 10**x or -10**x per sign) and its value returned",
+                 z3.And(n == x.len, z3.ForAll([k], z3.Implies(z3.And(0 <= k, k < n), z3.Select(A, k) == want(k))),
+                        isinstance(res, VFloat) and res.val == NLLP_v(A) or z3.BoolVal(False)))]
+
+    def raises(S, a, exc):
+        if signs_none or exc != "ValueError":
+            return z3.BoolVal(False)
+        sg = S.seq(a["signs"])
+        k = z3.Int("k!r")
+        eng = S.eng
+        return z3.Exists([k], z3.And(0 <= k, k < sg.len, z3.Not(sg.get(k).isnone), sg.get(k).val.t != PLUS(eng), sg.get(k).val.t != MINUS(eng)))
+
+    havoc_types = {"p": T.list(T.opt(T.real))}
+    return Contract("chi2_fcn", {"x": T.arr(T.real), "likelihood": mk_lik, "eq_numpy": T.fn, "integrated": T.bool, "signs": mk_signs},
+                    requires=requires, ensures=ensures, raises=raises, setup=setup,
+                    loops={0: LoopSpec(inv, havoc_types=havoc_types)})
